@@ -207,3 +207,41 @@ PROPERTY_META["C19"] = {
     "claim": "constructors/readers/iteration/selection agree with a plain array; each of the 27 setters changes exactly its slot from any state",
     "outside": "nothing: containers have no hidden state, so one step from an arbitrary state covers every history", "assumptions": COMMON_ASSUME,
 }
+
+# ---------------------------------------------------------------- C12
+TABLE["C12"] = [
+    H("c12_symbol_tables", functions=["CardRank::from_char", "CardSuit::from_char"], domain="every Unicode scalar value", bound="whole input type", draws="c:char"),
+    H("c12_token", functions=["PokerCard::from_index", "parse::get_rank_and_suit", "PokerCard::create", "str::chars (core)"],
+      domain="every valid UTF-8 string of <= 8 bytes (symbolic bytes and length; core::str::from_utf8 filters)",
+      bound="tokens longer than 8 bytes are outside; the code reads only the first two chars (<= 8 bytes)", timeout=1500,
+      assume=["expected value decoded from the raw bytes by an independent UTF-8 decoder"], draws="bytes:u64 (little endian), len:u8"),
+    H("c12_roundtrip", functions=["get_rank_char", "get_suit_char", "get_suit_letter", "PokerCard::from_index", "char::encode_utf8"],
+      domain="52 cards x 2 renderings", bound="whole domain; unwind 10", draws="r,s:u8, glyph:bool", timeout=1500),
+    H("c12_hand_parsers", functions=["TryFrom<&'static str> for Two..Seven", "Two..Seven::from_index", "parse::five_from_index", "BC64::from_index"],
+      domain="token streams of 0..=9 tokens, every token value in {52 cards, blank}", bound="streams longer than 9 tokens are outside (the longest hand has 7 slots)",
+      assume=["S6: <SplitWhitespace as Iterator>::next stubbed by an abstract token stream; <u32 as PokerCard>::from_index stubbed by token -> symbolic word (its real range is decided by c12_token)"],
+      draws="n:u8, (r,s)*9 (r=13 is blank)"),
+]
+PROPERTY_META["C12"] = {
+    "claim": "symbol tables for all scalars; token parser total and exact on all UTF-8 <= 8 bytes; render/parse round trip; hand parsers fail iff tokens run out and fill slots in token order; bit-set parser folds all tokens",
+    "outside": "tokens > 8 bytes; whitespace splitting of raw text itself (core's split_whitespace is trusted, exercised concretely by the round-trip harness and natively in replay)",
+    "assumptions": COMMON_ASSUME,
+}
+
+# ---------------------------------------------------------------- C13
+TABLE["C13"] = [
+    H("c13_predicates", functions=["Five::is_flush", "is_straight", "is_straight_flush", "is_wheel", "or_rank_bits", "or_bits", "and_bits"],
+      domain="every five distinct cards in every slot order (2,598,960 x 120)", bound="loop-free; whole domain", draws="(r,s)*5"),
+    H("c13_free_functions", functions=["evaluate::is_flush", "evaluate::or_rank_bits"], domain="arbitrary 32-bit words in five slots", bound="whole input type", draws="a:u32*5"),
+    H("c13_category_distinct_ranks", solver="kissat", timeout=1800,
+      functions=["Five::hand_rank (real evaluator, FLUSHES/UNIQUE_5 path)", "predicates"], domain="five distinct cards, five distinct ranks, any slot order",
+      bound="whole domain; unwind 14", draws="(r,s)*5"),
+    H("c13_category_paired_sorted", tier="thorough", solver="kissat", timeout=2400,
+      functions=["Five::hand_rank (real evaluator, product path)", "predicates"], domain="five distinct cards with a repeated rank, descending slot order",
+      bound="whole domain; unwind 14", draws="(r,s)*5"),
+]
+PROPERTY_META["C13"] = {
+    "claim": "each predicate iff its definition on all hands/orders; category from ranking agrees (table path any order; product path sorted order in thorough); free functions == methods on arbitrary words",
+    "outside": "category agreement for paired hands in unsorted order is covered through C01+C06 (value = ordinal, name = category of ordinal)",
+    "assumptions": COMMON_ASSUME,
+}
